@@ -11,6 +11,7 @@
 #include <cxxabi.h>
 #include <dlfcn.h>
 #include <map>
+#include <random>
 #include <csignal>
 #include <pthread.h>
 #include <set>
@@ -40,6 +41,17 @@ steady_clock::time_point steady_clock::now() noexcept
 }
 } // namespace _V2
 } // namespace chrono
+} // namespace std
+
+// Link-time replacement of the entropy source: every std::random_device in the process returns the same
+// value, so rr_cache's self-seeded generator is deterministic even when the harness cannot reach into
+// the cache to reseed it (black-box fallback build).  The white-box build reseeds per call anyway.
+namespace std
+{
+unsigned int random_device::_M_getval()
+{
+    return 20240229u;
+}
 } // namespace std
 
 using namespace vf;
